@@ -1001,7 +1001,12 @@ func c17_runC17(e *Env) {
 		"top-level statements inserted (defaults of every constant type, closures over two levels, recursion through the function's own " +
 		"name, float/int/string constants incl. non-ASCII, escapes and — in < 15 % of the programs — octal escapes that are not valid UTF-8 " +
 		"or a function called __main__), the directed programs, and every script of the repository (marshalled and compared, not run); " +
-		"a case is one program; distinct by its source text; non-trivial when it compiles and has ≥ 3 statement forms or block depth ≥ 3"
+		"a case is one program; distinct by its source text; non-trivial when it compiles and has ≥ 3 statement forms or block depth ≥ 3. " +
+		"Sessions: 2–4 compiled programs of mixed size (tiny, directed, one inserted statement, generated) and a sequence of 3–15 " +
+		"MarshalCode(code i)/UnmarshalCode(bytes j) calls over the growing store of retained results (marshal all then reload from the first; " +
+		"reload x, marshal y, use x; up and down then reload all; random), run on one pinned goroutine, every retained result compared at the " +
+		"end with the model's session and with the copy taken when it was returned; a session is one case, distinct by its programs and " +
+		"calls, non-trivial when ≥ 2 different programs are marshalled and it has ≥ 3 calls"
 	n := 4000
 	if !e.Quick {
 		n = 60000
@@ -1079,6 +1084,8 @@ func c17_runC17(e *Env) {
 	// the sanitiser of the model against encoding/json on byte strings (all 1- and 2-byte
 	// strings over a boundary alphabet, random longer ones)
 	c17Sanitize(e)
+	// sessions: sequences of MarshalCode/UnmarshalCode calls with retained results (c17sess.go)
+	c17Sessions(e)
 }
 
 // c17Sanitize compares the model's `sanitize`/`validStr` with json.Marshal∘Unmarshal.
